@@ -39,6 +39,16 @@ def run(prog, rep):
     rep.expect_min("C14.start", 4)
     rep.expect_min("C14.protocol", 7)
     rep.expect_min("C14.all", 1)
+    # "fitting it after all of those have been fitted ... also when a model is re-fitted": a dependent is fitted against what its
+    # conditioners evaluate to NOW - the evaluation rows of C08.chain (stored values, in order, no arguments) and no memory in __call__
+    from vstat.report import Relabel
+    from . import c08
+    rep.part(c08.chain, prog, Relabel(rep, "C14.eval"))
+    rep.expect_min("C14.eval", 6)
+    from .purity import row as _stateless_row
+    rep.part(_stateless_row, prog, rep, "C14", 1)
+    rep.explanation += (" C14.eval: the rows of C08.chain - a dependence function used as parameter is bound under its own name, removed from the fitted "
+                        "parameters and evaluated with the currently stored values of its conditioner.")
 
 
 class _R:
